@@ -31,20 +31,8 @@ def run_check(pid, P, fam, tier, seed):
         work.cleanup()
 
 
-def _run_check(pid, P, fam, tier, seed, work, t0):
-    pre = fam.get("prebuild")
-    if pre:
-        pre()
-    binary = build_vdrive(race=fam.get("race", False))
-    base = check_base(work, (P.get("base", {}) or {}).get(tier, []))
-    # counter-examples TLC found on design variants are replayed into the real code as extra inputs
-    extra = []
-    if fam.get("cex_input"):
-        for b in base:
-            if b.get("counterexample_actions"):
-                extra.append(fam["cex_input"](b["counterexample_actions"]))
-    out, meta, val = _drive_and_validate(work, fam, P, tier, seed, binary, "drive", extra_inputs=extra)
-
+def _examine(work, fam, P, pid, tier, seed, binary, out, meta, val, tag=""):
+    """classifies the violation lines of one driven family and reproduces the unknown ones; returns a dict of results"""
     mach = [v for v in val["viols"] if v["prop"] == "MACHINERY"]
     if mach:
         raise Machinery("trace contained events the trace spec does not know: %s" % mach[:3])
@@ -95,18 +83,18 @@ def _run_check(pid, P, fam, tier, seed, work, t0):
     # unknown violations: reproduce each (up to 3) in isolation before believing it
     violations, unreproduced, unconfirmed = [], 0, 0
     for n, (tid, vs) in enumerate(unknown[:3]):
-        rf = os.path.join(work.dir, "replay-in-%d.json" % n)
+        rf = os.path.join(work.dir, "replay-in-%s%d.json" % (tag, n))
         with open(rf, "w") as f:
             json.dump(inputs[tid], f)
         again = []
         # schedule-dependent families get several attempts: the same seeded schedule does not always hit the same window
         for attempt in range(fam.get("repro_attempts", 1)):
-            _, _, val2 = _drive_and_validate(work, fam, P, tier, seed, binary, "repro-%d-%d" % (n, attempt), replay_file=rf)
+            _, _, val2 = _drive_and_validate(work, fam, P, tier, seed, binary, "repro-%s%d-%d" % (tag, n, attempt), replay_file=rf)
             again = [v for v in val2["viols"] if v["prop"] == pid and not known.match(findings, v, inputs[tid])]
             if again:
                 break
         if again:
-            path = write_replay(pid, n, dict(property=pid, family=P["family"], input=inputs[tid], seed=seed, tier=tier,
+            path = write_replay(pid, "%s%d" % (tag, n), dict(property=pid, family=fam.get("name", P["family"]), input=inputs[tid], seed=seed, tier=tier,
                                              violations=[dict(aspect=v["aspect"], detail=v["detail"], line=v["i"]) for v in again[:10]]))
             violations.append(path)
             print("VIOLATION property=%s replay=%s" % (pid, path), flush=True)
@@ -123,30 +111,60 @@ def _run_check(pid, P, fam, tier, seed, work, t0):
             log("NOT REPRODUCED in isolation: input=%s aspects=%s detail=%s" % (json.dumps(inputs[tid])[:300], sorted({v["aspect"] for v in vs}), vs[0]["detail"][:300]))
     if len(unknown) > 3 and violations:
         log("%d further violating input(s) not reproduced individually" % (len(unknown) - 3))
+    return dict(violations=violations, unreproduced=unreproduced, unconfirmed=unconfirmed, known=sorted(known_hits.keys()), unknown=len(unknown), drift=len(drift))
+
+
+def _run_check(pid, P, fam, tier, seed, work, t0):
+    pre = fam.get("prebuild")
+    if pre:
+        pre()
+    binary = build_vdrive(race=fam.get("race", False))
+    base = check_base(work, (P.get("base", {}) or {}).get(tier, []))
+    # counter-examples TLC found on design variants are replayed into the real code as extra inputs
+    extra = []
+    if fam.get("cex_input"):
+        for b in base:
+            if b.get("counterexample_actions"):
+                extra.append(fam["cex_input"](b["counterexample_actions"]))
+    out, meta, val = _drive_and_validate(work, fam, P, tier, seed, binary, "drive", extra_inputs=extra)
+    r = _examine(work, fam, P, pid, tier, seed, binary, out, meta, val)
+    traces, events, states, nontriv = int(meta["traces"]), int(val["events"]), int(val["states"]), int(meta["nontrivial"].get(pid, 0))
+    # further families that decide the same property on another input space (e.g. another alphabet of the same model)
+    import registry
+    for k, fname in enumerate(P.get("also", [])):
+        fam2 = dict(registry.FAMILIES[fname], name=fname)
+        P2 = dict(P, args={}, tier_args={})
+        out2, meta2, val2 = _drive_and_validate(work, fam2, P2, tier, seed, binary, "drive-%s" % fname)
+        r2 = _examine(work, fam2, P2, pid, tier, seed, binary, out2, meta2, val2, tag=fname + "-")
+        for key in ("violations", "known"):
+            r[key] = r[key] + [x for x in r2[key] if x not in r[key]]
+        for key in ("unreproduced", "unconfirmed", "unknown", "drift"):
+            r[key] += r2[key]
+        traces += int(meta2["traces"]); events += int(val2["events"]); states += int(val2["states"]); nontriv += int(meta2["nontrivial"].get(pid, 0))
+    violations, unreproduced = r["violations"], r["unreproduced"]
 
     # binding self-test: corrupt one logged field of an accepted trace, TLC must flag it
     st = selftest(work, fam, P, pid, out)
 
-    nontriv = int(meta["nontrivial"].get(pid, 0))
     samples = meta["samples"].get(pid) or meta["samples"].get("*") or []
     cov = dict(
-        evaluations=int(meta["traces"]),
+        evaluations=traces,
         distinct_nontrivial=nontriv,
         rule=P.get("rule", fam.get("rule", "")),
         samples=samples[:5],
-        traces_validated_against_impl=int(meta["traces"]),
-        trace_events=int(val["events"]),
-        trace_states_checked_by_tlc=int(val["states"]),
+        traces_validated_against_impl=traces,
+        trace_events=events,
+        trace_states_checked_by_tlc=states,
         base_models=base,
-        states=sum(b["distinct"] for b in base) if base else int(val["states"]),
-        transitions=sum(b["generated"] for b in base) if base else int(val["events"]),
+        states=sum(b["distinct"] for b in base) if base else states,
+        transitions=sum(b["generated"] for b in base) if base else events,
         exhaustive=bool((P.get("exhaustive", {}) or {}).get(tier, False)),
         binding_selftest=st,
-        known_findings_seen=sorted(known_hits.keys()),
-        violating_inputs=len(unknown),
-        unconfirmed_idle_artefacts=unconfirmed,
+        known_findings_seen=r["known"],
+        violating_inputs=r["unknown"],
+        unconfirmed_idle_artefacts=r["unconfirmed"],
         driver_extra=meta.get("extra", {}),
-        model_drift_lines=len(drift),
+        model_drift_lines=r["drift"],
     )
     wall = time.time() - t0
     write_evidence(pid, tier, seed, P["level"], cov, P.get("assumptions", []), wall, len(violations))
@@ -156,7 +174,7 @@ def _run_check(pid, P, fam, tier, seed, work, t0):
         raise Machinery("%d violating trace(s) did not reproduce when re-run in isolation (flaky; not a verdict)" % unreproduced)
     if nontriv < 2:
         raise Machinery("only %d non-trivial case(s) for %s - the run did not exercise the property" % (nontriv, pid))
-    log("%s %s: held on %d traces (%d non-trivial), %.1fs" % (pid, tier, meta["traces"], nontriv, wall))
+    log("%s %s: held on %d traces (%d non-trivial), %.1fs" % (pid, tier, traces, nontriv, wall))
     return 0
 
 
@@ -193,6 +211,10 @@ def run_replay(pid, P, fam, path):
     work = Work(pid + "-replay")
     try:
         payload = json.load(open(path))
+        import registry
+        if payload.get("family") in registry.FAMILIES and payload["family"] in P.get("also", []):
+            fam = dict(registry.FAMILIES[payload["family"]], name=payload["family"])   # recorded by a further family of this property
+            P = dict(P, args={}, tier_args={})
         binary = build_vdrive(race=fam.get("race", False))
         rf = os.path.join(work.dir, "in.json")
         with open(rf, "w") as f:
